@@ -24,6 +24,8 @@
 (*   specialised node kinds) want was read off the text by the harness.    *)
 (* Laws: identity (every reference is the object of definition !N),        *)
 (*   ref-target, placement (inline vs numbered, inline nodes carry ID -1), *)
+(*   field (text rows: every reference / inline node of a specialised node *)
+(*   sits in the struct field named like the keyword it was written under),*)
 (*   def-order (MetadataDefs sorted by ID), distinct, kind (node type),    *)
 (*   attachments (number, names and order of the attachments at every      *)
 (*   position: global, declaration, definition, instruction, terminator;   *)
@@ -80,12 +82,14 @@ NamedNames(w)  == [x \in 1..Len(w.named) |-> w.named[x].name]
 Everything(w)  == G!AllOps(w) \o G!NamedOps(w) \o <<G!SiteOps(w.sites)>>
 
 \* the structural laws on an observation o against what is required, w; sfx names the stage
-ObsBad(o, w, r, sfx) ==
+ObsBad(o, w, r, sfx, flds) ==
     Chk(\A x \in 1..Len(Everything(o)) : G!OpsIdentity(Everything(o)[x]), "parse", "identity" \o sfx, r)
   + Chk([x \in 1..Len(Everything(o)) |-> G!OpsIds(Everything(o)[x])]
         = [x \in 1..Len(Everything(w)) |-> G!OpsIds(Everything(w)[x])], "parse", "ref-target" \o sfx, r)
   + Chk([x \in 1..Len(Everything(o)) |-> G!OpsKinds(Everything(o)[x])]
         = [x \in 1..Len(Everything(w)) |-> G!OpsKinds(Everything(w)[x])], "parse", "placement" \o sfx, r)
+  + Chk(flds => [x \in 1..Len(o.defs) |-> G!OpsFields(o.defs[x].ops)]
+                = [x \in 1..Len(w.defs) |-> G!OpsFields(w.defs[x].ops)], "parse", "field" \o sfx, r)
   + Chk(DefIds(o) = DefIds(w), "parse", "def-order" \o sfx, r)
   + Chk(DefDistinct(o) = DefDistinct(w), "parse", "distinct" \o sfx, r)
   + Chk(DefKind(o) = DefKind(w), "parse", "kind" \o sfx, r)
@@ -99,10 +103,12 @@ ObsBad(o, w, r, sfx) ==
 \* shows in obs2 as a placement / identity difference at exactly that position.
 ParseBad(r) == LET row == Parse[r] w == row.want IN
     Chk(row.src = "graph" => w = G!WantOf(row.pat), "parse", "want-transport", r)
-  + ObsBad(row.obs, w, r, "")
-  + ObsBad(row.obs2, w, r, "-after-reprint")
+  + ObsBad(row.obs, w, r, "", row.src = "text")
+  + ObsBad(row.obs2, w, r, "-after-reprint", row.src = "text")
   + Chk(row.printed.ids = DefIds(w), "parse", "printed-ids", r)
-  + Chk(row.printed.tokens = [x \in 1..Len(w.defs) |-> <<w.defs[x].id>> \o G!FlatRefs(w.defs[x].ops)],
+  \* (rows whose fields may be written in any order prescribe no token order: their print is judged through obs2)
+  + Chk("unordered" \notin DOMAIN row =>
+        row.printed.tokens = [x \in 1..Len(w.defs) |-> <<w.defs[x].id>> \o G!FlatRefs(w.defs[x].ops)],
         "parse", "printed-refs", r)
 
 \* Cross-module isolation: modules parsed separately in one process share no metadata node
